@@ -36,6 +36,7 @@ class Trace:
     def __init__(self):
         self.lp: List[torch.Tensor] = []  # process_logits outputs, one [B,N] per pass
         self.amask: List[Optional[torch.Tensor]] = []
+        self.logits_in: List[torch.Tensor] = []  # raw decoder logits handed to process_logits, one per pass
         self.pl_opts: List[dict] = []  # the options process_logits was called with, one per pass
         self.sel_calls: List[dict] = []  # greedy/sampling/evaluate calls: {kind, logprobs, mask, selected}
         self.pre: Optional[dict] = None  # {start, done, num_starts, n_forced}
@@ -78,6 +79,7 @@ class Recorder:
         orig_pl = D.process_logits
 
         def process_logits(logits, mask=None, *a, **k):
+            tr.logits_in.append(_c(logits))  # before the call: process_logits masks its argument in place
             out = orig_pl(logits, mask, *a, **k)
             tr.lp.append(_c(out))
             tr.amask.append(_c(mask))
